@@ -28,6 +28,74 @@ use alpenglow::types::Slot;
 use alpenglow::{Stake, ValidatorIndex, ValidatorInfo};
 
 const NKEYS: usize = 56; // key ids 0..NKEYS; validators use the low ids, outsiders the rest
+/// "key" ids >= TORSION do not denote signatures: part `(TORSION + j, F 0)` is the point `T_j` of E(Fp), a non-trivial
+/// point OUTSIDE the prime-order subgroup G1 (of order dividing the cofactor; see `offgroup`): on the
+/// curve, canonically encodable, invisible to a pairing check that skips the subgroup test. The model treats it as
+/// a part signed by a key no validator has (so no aggregate containing it is anybody's signature); a vote signature
+/// containing it is not decodable (`IndividualSignature::read` checks subgroup membership).
+const TORSION: usize = 1_000_000;
+const NTORSION: usize = 4;
+
+/// Points of E(Fp): y^2 = x^3 + 4 outside G1, through the raw `blst` API (no crate item involved).
+mod offgroup {
+    use blst::*;
+    /// the order r of G1, little endian
+    const R_LE: [u8; 32] = [
+        0x01, 0x00, 0x00, 0x00, 0xff, 0xff, 0xff, 0xff, 0xfe, 0x5b, 0xfe, 0xff, 0x02, 0xa4, 0xbd, 0x53, 0x05, 0xd8, 0xa1, 0x09, 0x08, 0xd8, 0x39, 0x33, 0x48, 0x7d,
+        0x9d, 0x29, 0x53, 0xa7, 0xed, 0x73,
+    ];
+    pub fn mul_r(p: &blst_p1) -> blst_p1 {
+        let mut out = blst_p1::default();
+        unsafe { blst_p1_mult(&mut out, p, R_LE.as_ptr(), 255) };
+        out
+    }
+    pub fn is_inf(p: &blst_p1) -> bool {
+        unsafe { blst_p1_is_inf(p) }
+    }
+    pub fn in_g1(p: &blst_p1) -> bool {
+        unsafe { blst_p1_in_g1(p) }
+    }
+    /// the point encoded by 96 uncompressed bytes (must be on the curve)
+    pub fn decode(b: &[u8]) -> blst_p1 {
+        assert_eq!(b.len(), 96);
+        let mut a = blst_p1_affine::default();
+        let err = unsafe { blst_p1_deserialize(&mut a, b.as_ptr()) };
+        assert_eq!(err, BLST_ERROR::BLST_SUCCESS, "harness: not a curve point");
+        let mut p = blst_p1::default();
+        unsafe { blst_p1_from_affine(&mut p, &a) };
+        p
+    }
+    pub fn encode(p: &blst_p1) -> Vec<u8> {
+        let mut out = vec![0u8; 96];
+        unsafe { blst_p1_serialize(out.as_mut_ptr(), p) };
+        out
+    }
+    pub fn add(a: &blst_p1, b: &blst_p1) -> blst_p1 {
+        let mut out = blst_p1::default();
+        unsafe { blst_p1_add_or_double(&mut out, a, b) };
+        out
+    }
+    /// r * (random point of E(Fp)): lies in the cofactor torsion E(Fp)[h]; retried until non-trivial
+    pub fn small_order_point(rng: &mut ag_harness::Rng) -> blst_p1 {
+        loop {
+            // compressed encoding: flag bits 100 / 101 (compressed, not infinity, sign of y), x < p = 0x1a01..
+            let mut x = rng.bytes(48);
+            x[0] = 0x80 | (if rng.chance(1, 2) { 0x20 } else { 0 }) | rng.below(0x1a) as u8;
+            let mut a = blst_p1_affine::default();
+            if unsafe { blst_p1_uncompress(&mut a, x.as_ptr()) } != BLST_ERROR::BLST_SUCCESS {
+                continue; // x^3 + 4 is not a square
+            }
+            assert!(unsafe { blst_p1_affine_on_curve(&a) });
+            let mut p = blst_p1::default();
+            unsafe { blst_p1_from_affine(&mut p, &a) };
+            let t = mul_r(&p);
+            if !is_inf(&t) {
+                assert!(!in_g1(&t), "harness: r * P is a non-trivial point of G1");
+                return t;
+            }
+        }
+    }
+}
 
 #[derive(Clone, Copy, Debug, PartialEq, Eq, Hash, PartialOrd, Ord)]
 enum Pl {
@@ -222,6 +290,8 @@ struct Cx {
     sig1: HashMap<Part, IndividualSignature>,
     sigs: HashMap<Vec<Part>, Vec<u8>>,
     ed_pk: signature::PublicKey,
+    /// the points `T_j` (see `TORSION`)
+    torsion: Vec<blst::blst_p1>,
     class: u64,
     accepted: u64,
     rejected: u64,
@@ -240,6 +310,25 @@ impl Cx {
     fn sig_bytes(&mut self, parts: &[Part]) -> Vec<u8> {
         if let Some(b) = self.sigs.get(parts) {
             return b.clone();
+        }
+        if parts.iter().any(|p| p.key >= TORSION) {
+            // (sum of the genuine parts) + the small-order points: on the curve, outside G1
+            let genuine: Vec<Part> = parts.iter().filter(|p| p.key < TORSION).cloned().collect();
+            let mut acc = if genuine.is_empty() { None } else { Some(offgroup::decode(&self.sig_bytes(&genuine))) };
+            for p in parts.iter().filter(|p| p.key >= TORSION) {
+                let t = self.torsion[p.key - TORSION];
+                acc = Some(match acc {
+                    None => t,
+                    Some(a) => offgroup::add(&a, &t),
+                });
+            }
+            let acc = acc.expect("non-empty");
+            // (generator invariant: the small-order components do not cancel)
+            assert!(!offgroup::is_inf(&acc) && !offgroup::in_g1(&acc), "harness: crafted point is in G1");
+            let b = offgroup::encode(&acc);
+            assert_eq!(offgroup::encode(&offgroup::decode(&b)), b);
+            self.sigs.insert(parts.to_vec(), b.clone());
+            return b;
         }
         let b = if parts.is_empty() {
             let mut id = vec![0u8; 96];
@@ -341,8 +430,8 @@ impl Cx {
 
     /// what the *property* demands for this vote (naive reference, independent of the Lean model)
     fn spec_vote(e: &Epoch, v: &VoteD) -> &'static str {
-        if v.parts.is_empty() {
-            return "undecodable";
+        if v.parts.is_empty() || v.parts.iter().any(|p| p.key >= TORSION) {
+            return "undecodable"; // identity / not a point of G1: no validator's signature whatever the fields say
         }
         if v.signer >= e.keys.len() as u64 {
             return "reject";
@@ -377,7 +466,7 @@ impl Cx {
         match spec {
             "admit" => self.rec.oracle(out == "ok", "c09-valid-vote-rejected", || format!("{op}: authentic vote not admitted: {out} ({why}); {epoch}")),
             "reject" => self.rec.oracle(out != "ok", "c09-forged-vote-admitted", || format!("{op}: vote admitted although {why}; {epoch}")),
-            _ => self.rec.oracle(out != "ok", "c09-forged-vote-admitted", || format!("{op}: vote with identity signature admitted; {epoch}")),
+            _ => self.rec.oracle(out != "ok", "c09-forged-vote-admitted", || format!("{op}: vote admitted although its signature bytes are not a signature at all ({why}: the identity or a point outside the prime-order subgroup G1); {epoch}")),
         }
         if out == "ok" {
             self.accepted += 1
@@ -385,6 +474,23 @@ impl Cx {
             self.rejected += 1
         }
         out
+    }
+
+    /// (distinct stake of the validators marked in any present half, total stake, threshold num/den) - recounted here
+    fn backing(e: &Epoch, c: &CertD) -> (u128, u128, u128, u128) {
+        let n = e.keys.len() as u64;
+        let mut marked = BTreeSet::new();
+        for (a, _) in &c.halves() {
+            for i in 0..n.min(a.num_bits) {
+                if a.bit(i) {
+                    marked.insert(i);
+                }
+            }
+        }
+        let stake: u128 = marked.iter().map(|i| e.stakes[*i as usize] as u128).sum();
+        let total: u128 = e.stakes.iter().map(|s| *s as u128).sum();
+        let (num, den) = if c.strong() { (4u128, 5u128) } else { (3, 5) };
+        (stake, total, num, den)
     }
 
     /// what the property demands for this certificate: Err(reason) = must not be admitted
@@ -457,6 +563,14 @@ impl Cx {
         match Self::spec_cert(e, c) {
             Ok(()) => self.rec.oracle(out == "ok", "c09-valid-cert-rejected", || format!("{op}: sufficiently backed authentic certificate not admitted: {out} ({why}); {epoch}")),
             Err(r) => self.rec.oracle(out != "ok", "c09-unbacked-cert-admitted", || format!("{op}: certificate admitted although {r} ({why}); {epoch}")),
+        }
+        // the `stake` field is a plain wire field: an under-backed certificate whose DECLARED stake meets the threshold must
+        // be rejected all the same (admission counts the marked signers; C01 / C03 rely on "admitted => backed")
+        let (stake, total, num, den) = Self::backing(e, c);
+        let declared = *c.clone().declared_mut() as u128;
+        if stake * den < total * num && declared * den >= total * num {
+            self.rec.count("cert:under-backed-with-inflated-declared-stake");
+            self.rec.oracle(out != "ok", "c09-inflated-declared-stake-admitted", || format!("{op}: under-backed certificate admitted on the strength of its declared stake: the marked signers hold {stake} of {total} (threshold {num}/{den}), the wire field `stake` claims {declared} ({why}); {epoch}"));
         }
         if out == "ok" {
             self.accepted += 1
@@ -618,7 +732,15 @@ fn main() {
     let mut krng = Rng::new(0xC09);
     let sks: Vec<SecretKey> = (0..NKEYS).map(|_| SecretKey::new(&mut krng)).collect();
     let ed_pk = signature::SecretKey::new(&mut krng).to_pk();
-    let mut cx = Cx { rec: Recorder::new(), sks, sig1: HashMap::new(), sigs: HashMap::new(), ed_pk, class: 0, accepted: 0, rejected: 0 };
+    // crafted points outside G1 (derived from the run's seed, separate stream)
+    let mut trng = Rng::new(args.seed ^ 0x7075_7321_0000);
+    let torsion: Vec<blst::blst_p1> = (0..NTORSION).map(|_| offgroup::small_order_point(&mut trng)).collect();
+    let mut cx = Cx { rec: Recorder::new(), sks, sig1: HashMap::new(), sigs: HashMap::new(), ed_pk, torsion, class: 0, accepted: 0, rejected: 0 };
+    {
+        // self-test of the constant r: a genuine signature is killed by it, the crafted points are not in G1 but on the curve
+        let g = offgroup::decode(&cx.sig_bytes(&[Part { key: 0, pl: Pl::F(0) }]));
+        assert!(offgroup::in_g1(&g) && offgroup::is_inf(&offgroup::mul_r(&g)), "harness: wrong group order constant");
+    }
     let max_n: usize = if args.thorough { 40 } else { 14 };
     let rounds = if args.thorough { 700 } else { 42 };
     let mut per_ty: BTreeMap<String, u64> = BTreeMap::new();
@@ -688,6 +810,17 @@ fn main() {
             let mut w = v.clone();
             w.parts = vec![];
             cx.vote(&e, &w, "identity signature");
+            // signature bytes moved off the prime-order subgroup: (this vote's valid signature) + T_j. A pairing check
+            // without subgroup test cannot tell it from the genuine signature, so only the decoder stands in the way.
+            let t = Part { key: TORSION + rng.below(NTORSION as u64) as usize, pl: Pl::F(0) };
+            let mut w = v.clone();
+            w.parts = vec![v.parts[0], t];
+            cx.vote(&e, &w, "valid signature plus a small-order point outside G1");
+            if kind as usize == round % 5 {
+                let mut w = v.clone();
+                w.parts = vec![t];
+                cx.vote(&e, &w, "signature is a small-order point outside G1");
+            }
             // multi-field: a different honest vote's signature under this vote's fields
             for _ in 0..3 {
                 let k2 = rng.below(5) as u32;
@@ -735,6 +868,28 @@ fn main() {
                 *d.declared_mut() = *rng.pick(&[0, 1, u64::MAX, e.info.total_stake().inner(), r]);
                 cx.cert(&e, &d, &format!("{why}; declared stake replaced"));
             }
+            // under-backed certificates that DECLARE a sufficient stake: one signer short with the declared figure set to the
+            // total / exactly the threshold / u64::MAX, and a single validator (the lightest one: what one Byzantine validator
+            // can sign on its own) claiming the whole stake
+            {
+                let total = e.info.total_stake().inner();
+                let need = ((total as u128 * num).div_ceil(den)) as u64;
+                let lightest: BTreeSet<usize> = (0..n).min_by_key(|i| (e.stakes[*i], *i)).into_iter().collect();
+                for (set, claim, why) in [
+                    (&below, total, "one signer short of the threshold, declared stake = total stake"),
+                    (&below, need, "one signer short of the threshold, declared stake = exactly the threshold"),
+                    (&below, u64::MAX, "one signer short of the threshold, declared stake = u64::MAX"),
+                    (&lightest, total, "signed by the lightest validator alone, declared stake = total stake"),
+                ] {
+                    if set.is_empty() {
+                        continue;
+                    }
+                    let (s1, s2) = if ty == 1 || ty == 2 { split(&mut rng, set, false) } else { (set.clone(), BTreeSet::new()) };
+                    let mut c = honest_cert(&e, ty, slot, hash, &s1, &s2);
+                    *c.declared_mut() = claim;
+                    cx.cert(&e, &c, why);
+                }
+            }
             // a validator present in both halves counts once
             if (ty == 1 || ty == 2) && below.len() >= 1 {
                 let c = honest_cert(&e, ty, slot, hash, &below, &below);
@@ -772,7 +927,7 @@ fn main() {
             let c = honest_cert(&e, ty, slot, hash, &s1, &s2);
             cx.cert(&e, &c, "honest");
             let nh = c.halves().len();
-            let muts = if args.thorough { 14 } else { 9 };
+            let muts = if args.thorough { 16 } else { 11 };
             for m in 0..muts {
                 let mut d = c.clone();
                 let hsel = rng.below(nh as u64) as usize;
@@ -910,6 +1065,59 @@ fn main() {
                             let b = h.bit(i);
                             h.set_bit(i, true);
                             if b { "unchanged".into() } else { "a validator marked as signer without its signature".into() }
+                        }
+                    }
+                    8 => {
+                        // an aggregate moved off the prime-order subgroup (decodes: `AggregateSignature::read` only checks
+                        // the curve equation; verification must do the subgroup test)
+                        let h = &mut d.halves_mut()[hsel];
+                        let t = Part { key: TORSION + rng.below(NTORSION as u64) as usize, pl: Pl::F(0) };
+                        if rng.chance(1, 4) {
+                            h.parts = vec![t];
+                            "aggregate replaced by a small-order point outside G1".into()
+                        } else {
+                            h.parts.push(t);
+                            "aggregate plus a small-order point outside G1".into()
+                        }
+                    }
+                    9 if ty == 1 || ty == 2 => {
+                        // mixed certificate, BOTH halves present, bitmasks honest: signatures exchanged between the halves, so
+                        // that the SUM of the two aggregates is what it was (sig1 + D, sig2 - D). Each half on its own is not
+                        // the aggregate of the validators it marks over its own vote kind.
+                        let all: Vec<usize> = at.iter().copied().collect();
+                        let (h1, h2): (BTreeSet<usize>, BTreeSet<usize>) = if all.len() < 2 || rng.chance(1, 4) {
+                            (at.clone(), at.clone()) // every signer in both halves
+                        } else {
+                            let cut = rng.range(1, all.len() as u64 - 1) as usize;
+                            let mut a: BTreeSet<usize> = all[..cut].iter().copied().collect();
+                            let b: BTreeSet<usize> = all[cut..].iter().copied().collect();
+                            if rng.chance(1, 3) {
+                                a.insert(all[cut]); // one validator in both halves
+                            }
+                            (a, b)
+                        };
+                        d = honest_cert(&e, ty, slot, hash, &h1, &h2);
+                        cx.cert(&e, &d, "honest, both halves present");
+                        let mut hs = d.halves_mut();
+                        let i = rng.below(hs[0].parts.len() as u64) as usize;
+                        let j = rng.below(hs[1].parts.len() as u64) as usize;
+                        match rng.below(3) {
+                            0 => {
+                                let (p, q) = (hs[0].parts[i], hs[1].parts[j]);
+                                hs[0].parts[i] = q;
+                                hs[1].parts[j] = p;
+                                "one signature of each half aggregated into the other half, bitmasks kept".into()
+                            }
+                            1 => {
+                                let p = hs[0].parts.remove(i);
+                                hs[1].parts.push(p);
+                                "one signature of the first half aggregated into the second half instead, bitmasks kept".into()
+                            }
+                            _ => {
+                                let q = hs[1].parts.remove(j);
+                                hs[0].parts.push(q);
+                                "one signature of the second half aggregated into the first half instead, bitmasks kept".into()
+                            }
                         }
                     }
                     _ => {
